@@ -97,7 +97,8 @@ theorem clock_monotone_loop (cfg : Cfg) (hb : 0 ≤ cfg.bump) (tgt : Option Int)
     skip := by intro s' x q' sp h _ _ _ _ _; have := tickClock_ge cfg hb tgt s' x; simp only; omega
     begin := by intro s' x q' sp h _ _ _ _ _; have := tickClock_ge cfg hb tgt s' x; simp only; omega
     enq := by intro x s' via m t cid child _ _ h; simpa [St.enqueue] using h
-    cancel := by intro x s' id _ h; simpa [St.cancel] using h
+    cancel := by intro x s' id h; simpa [St.cancel] using h
+    link := by intro x s l h; exact h
     stop := by intro x s' _ h; simpa using h
     sleep := by intro x s' t _ ht h; simp only; omega
     handled := by intro x s' e _ _ h; simpa using h
@@ -132,7 +133,7 @@ theorem cancelled_never_run (cfg : Cfg) (s : St) (i : Nat) (ops : List Op)
       rcases he with he | rfl
       · exact h.1 e he hei
       · exact absurd hei hid)
-    (fun s'' id h => (cancInv_iter cfg none i s.log).cancel ⟨0, 0, .done, false, false, 0⟩ s'' id trivial h)
+    (fun s'' id h => (cancInv_iter cfg none i s.log).cancel ⟨0, 0, .done, false, false, 0⟩ s'' id h)
     (Or.inl (fun _ _ h => h)) ops (s.cancel i) hops (cancInv_cancel s i) (qall_cancel hq i)).1.2
 
 /-- **sorted_if_no_past_scheduling.** If no action schedules before the clock (inside actions only
@@ -171,7 +172,7 @@ theorem advance_to_runs_exactly_due_partial (cfg : Cfg) (T : Int) (s s' : St) (h
       · right; simpa [pastTarget] using hpt
     enq := by intro x st via m t cid child _ _ ⟨h1, h2, h3⟩; exact ⟨h1, PQ.wf_enqueue h2 _, h3⟩
     cancel := by
-      intro x st id _ ⟨h1, h2, h3⟩
+      intro x st id ⟨h1, h2, h3⟩
       refine ⟨h1, ?_, h3⟩
       obtain ⟨a, b⟩ := h2
       have hsnd : ∀ e : Item × Int, (cancelEntry id e).2 = e.2 := by
@@ -181,6 +182,7 @@ theorem advance_to_runs_exactly_due_partial (cfg : Cfg) (T : Int) (s s' : St) (h
       simp only [St.cancel, List.mem_map] at he
       obtain ⟨e0, he0, rfl⟩ := he
       rw [hsnd]; exact b e0 he0
+    link := by intro x s l h; exact h
     stop := by intro x st hs _; exact absurd hs (by simp [noStop])
     sleep := by intro x st t _ _ h; exact h
     handled := by intro x st e _ _ h; exact h
